@@ -214,6 +214,13 @@ def coords_time(
         },
     }
 
+    # Work with instants. Adding and subtracting acquisition times on local
+    # wall-clock times is wrong around daylight-saving transitions.
+    maxTimeIndex = pd.DatetimeIndex(maxTimeIndex)
+    if timezone_input_files is not None:
+        maxTimeIndex = maxTimeIndex.tz_localize(tz=timezone_input_files)
+    maxTimeIndex = maxTimeIndex.tz_convert("UTC")
+
     if not double_ended_flag:
         # single ended measurement
         dt1 = dtFW.astype("timedelta64[s]")
@@ -268,31 +275,17 @@ def coords_time(
             ("time", index_time_FWend),
         ]
 
-    if timezone_input_files is not None:
-        coords = {
-            k: (
-                "time",
-                pd.DatetimeIndex(v)
-                .tz_localize(tz=timezone_input_files)
-                .tz_convert(timezone_netcdf)
-                .tz_localize(None)
-                .astype("datetime64[ns]"),
-                time_attrs[k],
-            )
-            for k, v in coords_zip
-        }
-    else:
-        coords = {
-            k: (
-                "time",
-                pd.DatetimeIndex(v)
-                .tz_convert(timezone_netcdf)
-                .tz_localize(None)
-                .astype("datetime64[ns]"),
-                time_attrs[k],
-            )
-            for k, v in coords_zip
-        }
+    coords = {
+        k: (
+            "time",
+            pd.DatetimeIndex(v)
+            .tz_convert(timezone_netcdf)
+            .tz_localize(None)
+            .astype("datetime64[ns]"),
+            time_attrs[k],
+        )
+        for k, v in coords_zip
+    }
 
     # The units are already stored in the dtype
     coords["acquisitiontimeFW"] = (
